@@ -34,6 +34,7 @@ pub enum COp {
     Reg(u32),
     Add { user: u32, loc: u32, blob: BlobSpec, tsd: u32 },
     Get { user: u32, loc: u32 },
+    Sub { user: u32 },
     /// connect a block with these transactions on the current tip
     Conn(Vec<u32>),
     Disc,
@@ -45,6 +46,7 @@ impl COp {
             COp::Reg(u) => format!("reg(u{u})"),
             COp::Add { user, loc, blob, .. } => format!("add(u{user},l{loc},{})", blob.token()),
             COp::Get { user, loc } => format!("get(u{user},l{loc})"),
+            COp::Sub { user } => format!("sub(u{user})"),
             COp::Conn(t) => format!("conn({:?})", t),
             COp::Disc => "disc".into(),
         }
@@ -54,6 +56,7 @@ impl COp {
             COp::Reg(u) => HOp::Reg { user: *u },
             COp::Add { user, loc, blob, tsd } => HOp::Add { user: *user, loc: *loc, blob: blob.clone(), tsd: *tsd, sig: SigKind::Valid },
             COp::Get { user, loc } => HOp::Get { user: *user, loc: *loc, sig: SigKind::Valid },
+            COp::Sub { user } => HOp::Sub { user: *user, sig: SigKind::Valid },
             COp::Conn(t) => HOp::Conn { txs: t.clone(), send: BTreeMap::new(), get: BTreeMap::new() },
             COp::Disc => HOp::Disc,
         }
@@ -76,6 +79,7 @@ enum Job {
     Reg(common_msgs::RegisterRequest),
     Add(common_msgs::AddAppointmentRequest),
     Get(common_msgs::GetAppointmentRequest),
+    Sub(common_msgs::GetSubscriptionInfoRequest),
     Conn(Block, u32),
     Disc(Block, u32),
 }
@@ -137,6 +141,10 @@ fn prepare(sys: &mut TowerSys, op: &COp, next_height: &mut u32, prev: &mut bitco
             let sig = teos_common::cryptography::sign(format!("get appointment {locator}").as_bytes(), &user_key(*user).sk);
             Job::Get(common_msgs::GetAppointmentRequest { locator: locator.to_vec(), signature: sig })
         }
+        COp::Sub { user } => {
+            let sig = teos_common::cryptography::sign(b"get subscription info", &user_key(*user).sk);
+            Job::Sub(common_msgs::GetSubscriptionInfoRequest { signature: sig })
+        }
         COp::Conn(txs) => {
             let txdata: Vec<Transaction> = txs.iter().map(|n| sys.tx(*n)).collect();
             let num = sys.next_block;
@@ -176,6 +184,10 @@ fn run_job(job: Job, api: Arc<InternalAPI>, gk: Arc<Gatekeeper>, w: Arc<Watcher>
             },
             Job::Get(req) => match rt.block_on(api.get_appointment(Request::new(req))) {
                 Ok(x) => format!("ok status={}", x.into_inner().status),
+                Err(s) => format!("err {:?}", s.code()),
+            },
+            Job::Sub(req) => match rt.block_on(api.get_subscription_info(Request::new(req))) {
+                Ok(x) => format!("ok {}", x.into_inner().available_slots),
                 Err(s) => format!("err {:?}", s.code()),
             },
             Job::Conn(block, h) => {
@@ -350,6 +362,16 @@ pub fn scenarios(thorough: bool) -> Vec<Scenario> {
         Scenario { name: "late-add-vs-disconnect", cfg: (3, 50, 2), height: 100,
                    setup: vec![COp::Reg(1), COp::Conn(vec![1])], send: node_ok.0.clone(), get: node_ok.1.clone(),
                    conc: vec![COp::Add { user: 1, loc: 1, blob: enc(1, 0), tsd: 10 }, COp::Disc] },
+        Scenario { name: "subscription-info-vs-register", cfg: (3, 50, 2), height: 100, setup: vec![COp::Reg(1), COp::Add { user: 1, loc: 1, blob: enc(1, 0), tsd: 10 }], send: node_ok.0.clone(), get: node_ok.1.clone(),
+                   conc: vec![COp::Sub { user: 1 }, COp::Reg(1)] },
+        Scenario { name: "subscription-info-vs-completing-block", cfg: (3, 400, 2), height: 100,
+                   setup: {
+                       let mut s = vec![COp::Reg(1), COp::Add { user: 1, loc: 1, blob: enc(1, 0), tsd: 10 }, COp::Conn(vec![1]), COp::Conn(vec![1010])];
+                       for _ in 0..99 { s.push(COp::Conn(vec![])); }
+                       s
+                   },
+                   send: node_ok.0.clone(), get: node_ok.1.clone(),
+                   conc: vec![COp::Sub { user: 1 }, COp::Conn(vec![])] },
         Scenario { name: "two-users-same-locator", cfg: (3, 50, 2), height: 100, setup: vec![COp::Reg(1), COp::Reg(2)], send: node_ok.0.clone(), get: node_ok.1.clone(),
                    conc: vec![COp::Add { user: 1, loc: 1, blob: enc(1, 0), tsd: 10 }, COp::Add { user: 2, loc: 1, blob: enc(1, 0), tsd: 10 }] },
     ];
